@@ -186,7 +186,7 @@ static inline SyntaxKind recognize5(const char* s, const ParseOptions& opts)
             }
         }
         else if (s[1] == 'B'
-                 && opts.languageExtensions().translations().isEnabled_Translate_bool_AsKeyword()) {
+                 && opts.languageDialect().std() >= LanguageDialect::Std::C99) {
             if (s[2] == 'o') {
                 if (s[3] == 'o') {
                     if (s[4] == 'l') {
